@@ -73,6 +73,55 @@ Theorem c19_adjacency_never_owns :
 Proof. exact own_heap_irrelevant. Qed.
 Print Assumptions c19_adjacency_never_owns.
 
+(* whatever object sits in a slot (handle, edge, path, result vector, container — built only through the API layer aop_oop): none of the nodes it owns has been released *)
+Theorem c19_object_keeps_its_nodes_alive :
+  forall (K V E : Type) (ops : list oop),
+       legal_run (o_init K V E) ops ->
+       forall (s : nat) (owned : list nat),
+       get_obj (o_objs (orun (o_init K V E) ops)) s = Some owned ->
+       forall u : nat, In u owned -> ~ In u (o_released (orun (o_init K V E) ops)).
+Proof. exact own_object_keeps_alive. Qed.
+Print Assumptions c19_object_keeps_its_nodes_alive.
+
+(* an Edge owns both nodes it mentions *)
+Theorem c19_edge_owns_its_endpoints :
+  forall (E : Type) (e : edge E), In (esrc e) (edge_owns e) /\ In (edst e) (edge_owns e).
+Proof. exact edge_owns_endpoints. Qed.
+Print Assumptions c19_edge_owns_its_endpoints.
+
+(* a Path / Vec<Edge> owns both endpoints of every edge it contains *)
+Theorem c19_path_owns_its_nodes :
+  forall (E : Type) (p : list (edge E)) (e : edge E),
+       In e p -> In (esrc e) (path_owns p) /\ In (edst e) (path_owns p).
+Proof. exact path_owns_endpoints. Qed.
+Print Assumptions c19_path_owns_its_nodes.
+
+(* a container owns every node it binds *)
+Theorem c19_container_owns_its_members :
+  forall (K : Type) (g : list (K * nat)) (k : K) (u : nat), In (k, u) g -> In u (graph_owns g).
+Proof. exact graph_owns_members. Qed.
+Print Assumptions c19_container_owns_its_members.
+
+(* Graph::insert never releases a node value *)
+Theorem c19_container_insert_releases_nothing :
+  forall (K V E : Type) (st : ostate K V E) (s : nat) (g : list (K * nat)) (k : K) (u : nat),
+       get_obj (o_objs st) s = Some (graph_owns g) -> snd (astep st (AGraph E s (g ++ [(k, u)]))) = [].
+Proof. exact own_container_insert_releases_nothing. Qed.
+Print Assumptions c19_container_insert_releases_nothing.
+
+(* Graph::remove hands the node out and releases nothing (neither the removed node nor any other member) *)
+Theorem c19_container_remove_releases_nothing :
+  forall (K V E : Type) (st : ostate K V E) (s t : nat) (g g' : list (K * nat)) (u : nat),
+       Slots K V E st ->
+       t <> s ->
+       get_obj (o_objs st) s = Some (graph_owns g) ->
+       (forall x : nat, In x (graph_owns g) -> x = u \/ In x (graph_owns g')) ->
+       (forall x : nat, In x (old_of (o_objs st) t) -> strong (del_obj (o_objs st) t) x > 0 \/ x = u) ->
+       snd (astep st (ANode K E t u)) = [] /\
+       snd (astep (fst (astep st (ANode K E t u))) (AGraph E s g')) = [].
+Proof. exact own_container_remove_releases_nothing. Qed.
+Print Assumptions c19_container_remove_releases_nothing.
+
 (* the invariant used above holds initially *)
 Theorem c19_invariant_initial :
   forall K V E : Type, OwnOK K V E (o_init K V E).
